@@ -847,8 +847,8 @@ func (st *e3State) step(op e3Op, rng *rand.Rand, part *h.Partial) []e3Verdict {
 				fmt.Sprintf("task ran %d command(s) although nothing relevant changed since its last successful run (file ops: %s; operations in between: %s)", n, why, via), props})
 		}
 		// update the record from the observation
-		if observed == "killed" && expectSkip && n == 0 {
-			// killed before the body was attempted, at a point where a skip was legitimate: not an attempt
+		if observed == "killed" && n == 0 && (expectSkip || strings.HasPrefix(op.Arg, "fp.checked")) {
+			// killed before any command was started (at the up-to-date check): not an attempt to run the commands
 			st.since = append(st.since, "killed-before-attempt")
 			return out
 		}
@@ -1099,6 +1099,14 @@ func runE3(id string, start time.Time) int {
 		exhaustiveKill = true
 		i := 0
 		for _, method := range []string{"checksum", "timestamp"} {
+			// a re-run for an unchanged fingerprint (because the status fails) is killed at each boundary; when the
+			// status passes again the earlier success must not count
+			ss := e3Shape{Method: method, Glob: 0, Shape: "plain", NCmds: 2, Status: true}
+			ss.fixNames()
+			for _, p := range e3KillPoints(ss) {
+				jobs = append(jobs, job{ss, []e3Op{{Kind: "run"}, {Kind: "status-off"}, {Kind: "kill", Arg: p}, {Kind: "status-on"}, {Kind: "run"}, {Kind: "run"}}, "kill-same-fingerprint-enum", i})
+				i++
+			}
 			for _, shape := range []string{"plain", "deps", "label", "ns", "collide", "labelvar"} {
 				for n := 1; n <= h.Pick(3, 4); n++ {
 					for _, gen := range []bool{false, true} {
